@@ -94,6 +94,20 @@ Theorem C18_start_stop : forall i, wf i -> wf_distinct i -> forall k o so s,
 Proof. exact start_stop. Qed.
 Print Assumptions C18_start_stop.
 
+(* the same over the whole history - "exactly once per run": a sink never registered receives no
+   startTestRun/stopTestRun at all; the fallback of a router built with do_start_stop_run receives
+   exactly the caller's starts and stops, in order; a sink registered by the k-th call receives
+   startTestRun at once if a run is in progress and from then on exactly the caller's starts and
+   stops, in order (so one start and one stop per run, including the stop of the run it joined) *)
+Theorem C18_start_stop_log : forall i, wf i -> wf_distinct i -> forall s, s < n_sinks i ->
+  let log := ss_log s (o_steps (model i)) in
+  (count s (registered i (ops i)) = 0 -> log = [])
+  /\ (fb i = Some s -> fb_ss i = true -> log = flat_map ss_of_op (ops i))
+  /\ (forall k o, nth_error (ops i) k = Some o -> In s (registration o) ->
+        log = (if in_run (firstn k (ops i)) then [StartRun] else []) ++ flat_map ss_of_op (skipn (S k) (ops i))).
+Proof. exact start_stop_log. Qed.
+Print Assumptions C18_start_stop_log.
+
 (* a registration lasts: registered at the call after the add_rule, and from then on *)
 Theorem C18_registered : forall i j k s o,
   (nth_error (ops i) k = Some o -> In s (registration o) -> memb s (registered i (firstn (S k) (ops i))) = true)
